@@ -4309,8 +4309,20 @@ def fold_sub(t):
         return t[2] if t[1] == TRUE else t[3]
     if t and t[0] in ("list", "tuple") and len(t) == 2 and isinstance(t[1], tuple) and any(isinstance(x, tuple) and x and x[0] == "star" for x in t[1]):
         t = _splice_stars(t)
+    if t and t[0] == "call" and len(t) == 4 and isinstance(t[2], tuple) and any(
+            isinstance(a, tuple) and a and a[0] == "star" and a[1][0] in ("tuple", "list") and not any(x[0] == "star" for x in a[1][1]) for a in t[2]):
+        args_ = []
+        for a in t[2]:
+            args_ += list(a[1][1]) if a[0] == "star" and a[1][0] in ("tuple", "list") and not any(x[0] == "star" for x in a[1][1]) else [a]
+        t = ("call", t[1], tuple(args_), t[3])  # f(*(a, b)) once the display is explicit is f(a, b)
     if t and t[0] == "bin" and t[1] == "+" and t[2][0] == "list" and t[3][0] == "list":
         return ("list", t[2][1] + t[3][1])  # [a] + [b] is [a, b]
+    if t and t[0] == "call" and t[1] in (("builtin", "tuple"), ("builtin", "list")) and len(t) == 4 and len(t[2]) == 1 and not t[3] \
+            and t[2][0][0] in ("tuple", "list") and not any(x[0] == "star" for x in t[2][0][1]):
+        return (t[1][1], t[2][0][1])  # tuple((a, b)) / list((a, b)) of an explicit display
+    if t and t[0] == "call" and t[1] == ("builtin", "len") and len(t) == 4 and len(t[2]) == 1 and not t[3] \
+            and t[2][0][0] in ("tuple", "list") and not any(x[0] == "star" for x in t[2][0][1]):
+        return ("const", len(t[2][0][1]))
     if t and t[0] == "dict" and len(t) == 2 and any(isinstance(kv, tuple) and len(kv) == 2 and kv[0] == ("dstar",) and kv[1][0] == "dict" for kv in t[1]):
         items_ = []
         for kv in t[1]:
@@ -4417,11 +4429,13 @@ def expand_pure_calls(t, summaries: "Summaries", cls: Optional[ClassInfo], modul
         if f[0] == "attr" and f[1] in (("param", "self"), ("param", "cls")) and cls is not None:
             cs = summaries.of_method(cls, f[2])
             selfterm = f[1]
-        elif f[0] == "global" and f[2] == "func" and f[1].startswith(module.name + ":") and "." not in f[1].split(":")[1]:
-            cs = summaries.of_func(module.name, f[1].split(":")[1])
-    except AnalysisError:
+        elif f[0] == "global" and f[2] == "func" and ":" in f[1] and "." not in f[1].split(":")[1] and (
+                f[1].startswith(module.name + ":") or f[1].split(":")[1] not in PINNED.get(f[1].split(":")[0], ())):
+            # (a helper the reference tree does not have is read wherever it lives)
+            cs = summaries.of_func(f[1].split(":")[0], f[1].split(":")[1])
+    except (AnalysisError, RecursionError):
         return t
-    if cs is None or cs.is_generator or cs.kwarg or cs.vararg:
+    if cs is None or cs.is_generator or cs.kwarg:
         return t
     if any(e.kind in ("store", "raise", "yield", "delete", "break", "continue") for e in cs.events):
         return t
@@ -4434,8 +4448,12 @@ def expand_pure_calls(t, summaries: "Summaries", cls: Optional[ClassInfo], modul
             return t
         bound[("param", params[0])] = selfterm
         params = params[1:]
-    if any(a[0] == "star" for a in t[2]) or any(k == "**" for k, _ in t[3]) or len(t[2]) > len(params):
+    if any(a[0] == "star" for a in t[2]) or any(k == "**" for k, _ in t[3]) or (len(t[2]) > len(params) and not cs.vararg):
         return t
+    if cs.vararg:
+        if cs.vararg in params:
+            return t
+        bound[("param", cs.vararg)] = bound[("param", "*" + cs.vararg)] = ("tuple", tuple(t[2][len(params):]))
     for p, a in zip(params, t[2]):
         bound[("param", p)] = a
     for k, v in t[3]:
@@ -4450,9 +4468,10 @@ def expand_pure_calls(t, summaries: "Summaries", cls: Optional[ClassInfo], modul
     rets = cs.raw_returns
     if not rets or cs.fall_live != FALSE:
         return t
-    v = subst(rets[-1].term, bound)
+    v = fold_sub(subst(rets[-1].term, bound))
     for r in reversed(rets[:-1]):
-        v = ITE(subst(r.live, bound), subst(r.term, bound), v)
+        c_ = fold_sub(subst(r.live, bound))
+        v = ITE(c_, fold_sub(subst(r.term, bound)), v)
     return fold_sub(expand_pure_calls(v, summaries, cls, module, depth + 1))
 
 
